@@ -105,6 +105,17 @@ def enumerate_cases(tier):
                 extra = {"range": {"src_start": 1, "src_len": 8, "dst_start": 9, "dst_end": 24}, "exclude": [12, 10]}
             # the all-valid case first
             yield dict({"M": M, "diti": False, "prefill": ["B;"], "stream": "valid", "method": method, "args": dict(base), "classes": {n: "valid" for n in names}}, **extra)
+            # the ends of the representable range: exactly 32 characters, a single character, volume == max_volume
+            for n in names:
+                edge = []
+                if INVALID_LIST.get(n) is INV_TEXT32:
+                    edge = ["W" * 32, "µ" + "x" * 30 + " ", "q"]
+                elif n == "volume":
+                    edge = [M, 0.01]
+                for val in edge:
+                    args = dict(base)
+                    args[n] = val
+                    yield dict({"M": M, "diti": False, "prefill": ["B;"], "stream": "valid", "method": method, "args": args, "classes": {m: "valid" for m in names}}, **extra)
             for n in names:
                 for bad in (inv_vol if n == "volume" else INVALID_LIST.get(n, [])):
                     args = dict(base)
@@ -119,7 +130,7 @@ def enumerate_cases(tier):
                     yield {"M": M, "diti": False, "prefill": [], "stream": "one-invalid", "method": method, "args": dict(base), "classes": classes, "range": extra["range"], "exclude": bad_excl}
 
 
-ENUM_SPACE = "every listed invalid value (text with ';', >32 characters, negative/NaN/inf/oversized volumes, negative/fractional positions, invalid directions/tips/exclusions) x every field x every method (aspirate_well, dispense_well, reagent_distribution, aspirate, dispense, transfer, distribute) with all other fields valid and non-default, max_volume in {950, 200}"
+ENUM_SPACE = "both ends of the representable range (32 characters, 1 character, volume = max_volume) and every listed invalid value (text with ';', >32 characters, negative/NaN/inf/oversized volumes, negative/fractional positions, invalid directions/tips/exclusions) x every field x every method (aspirate_well, dispense_well, reagent_distribution, aspirate, dispense, transfer, distribute) with all other fields valid and non-default, max_volume in {950, 200}"
 
 
 def pick(draw, field, mode):
